@@ -389,3 +389,20 @@ func (_this *Context) LocalReferenceObject(id []byte, allowedDataTypes DataType)
 	}
 	_this.forwardLocalReferences[idAsString] = current
 }
+
+// The exponent of a big binary float may not have more digits than the configured
+// maximum. Such values cost nothing to write down (0x1p-100000000), but minutes
+// to convert or print.
+func (_this *Context) ValidateFloatExponent(exponent int64) {
+	if exponent < 0 {
+		exponent = -exponent
+	}
+	digitCount := uint64(1)
+	for exponent >= 10 {
+		exponent /= 10
+		digitCount++
+	}
+	if digitCount > _this.config.Rules.MaxFloatExponentDigitCount {
+		panic(fmt.Errorf("float exponent has %v digits, which exceeds the maximum of %v", digitCount, _this.config.Rules.MaxFloatExponentDigitCount))
+	}
+}
